@@ -157,4 +157,22 @@ HaltIdle == [][(power = "halt" /\ last' = "StepHalt") => /\ (isr = {} => power' 
                                                           /\ (isr # {} => power' = "run")]_vars
 \* C12: a powered-off CPU stops both timers and ignores everything but the ON key
 OffStopsTimers == [][(power = "off" /\ last' = "StepOff" /\ 3 \notin isr) => power' = "off" /\ ~timersOn' /\ pc' = pc]_vars
+
+\* ------------------------------------------------------------- liveness
+\* Checked under weak fairness of the CPU only (the machine keeps being stepped; the environment owes nothing), on the
+\* finite instance (PcMod > 0, MaxDepth < 0) and WITHOUT a state constraint, so that no non-progress cycle is hidden.
+CpuStep == (\E ins \in Alphabet : StepRun(ins)) \/ StepHalt \/ StepOff
+LiveSpec == Spec /\ WF_vars(CpuStep)
+\* C12: a halted CPU resumes when a status bit becomes pending
+HaltWakes == (power = "halt" /\ isr # {}) ~> (power # "halt")
+\* C12: a powered-off CPU resumes when the ON key is pending (and its timers run again)
+OffWakes == (power = "off" /\ 3 \in isr) ~> (power # "off" /\ timersOn)
+\* C12: a pending request is taken once it is unmasked - unless the firmware acknowledges or masks it, or cuts the power, first
+Owed(s) == s \in isr /\ power = "run" /\ Bit(imr, 7) = 1 /\ s \in BitsOf(imr) /\ Len(frames) < MaxNest
+RequestServed == \A s \in Src : Owed(s) ~> (delivered \/ ~Owed(s))
+\* a handler that was entered is left again or the firmware keeps the machine inside it by its own choice: the frame stack can
+\* always be unwound (possibility, as an invariant over the graph: from every state with a frame RETI is enabled)
+CanReturn == InInt /\ power = "run" => [k |-> "RETI"] \in Alphabet
+\* the timers of a machine that is not powered off are never found stopped
+TimersRunUnlessOff == (power # "off") => timersOn
 =============================================================================
